@@ -17,6 +17,8 @@ ASSUMPTIONS = [
     "numeric targets also use far same-bank displacements around +-0x7F80/0x8000/0xFF80/0x10000 (must be rejected, never folded to 8/15/16 bits)",
     "unjudged: branch and target in different banks (incl. primary vs mirror), target or instruction outside the bank window",
     "branch opcodes from the ISA matrix; mnemonics absent from the live opcode table are skipped",
+    "user .map cases: one mapping (ROM 00-3f mirrored at 80-bf, writable 70-71 mirrored at f0-f1), numeric same-bank targets; a run address in the "
+    "writable banks or their mirror must be rejected, one in the ROM range or its mirror encodes the true displacement",
 ]
 EXHAUSTIVE_WHEN_PARTS = True
 
@@ -306,9 +308,50 @@ MAP_HISTORY = (".map identifier=1 bank_range=0x00, 0x6f addr_range=0x8000, 0xfff
                ".map identifier=2 bank_range=0x7e, 0x7f addr_range=0x0000, 0xffff mask=0x10000 writable=1\n*=0x008000\nbra next_q\nnext_q:\n")
 
 
+USER_MAP = (".map identifier=1 bank_range=0x00, 0x3f addr_range=0x8000, 0xffff mask=0x8000 mirror_bank_range=0x80, 0xbf\n"
+            ".map identifier=2 bank_range=0x70, 0x71 addr_range=0x0000, 0x7fff mask=0x8000 writable=1 mirror_bank_range=0xf0, 0xf1\n")
+
+
+def judge_user_map(res: Res, m: str, d: int, how: str, run: int) -> None:
+    """A user .map with a writable range and its mirror: a branch whose run address lies in the writable banks or in their mirror runs
+    from RAM (rejected); the same branch in the ROM range of that mapping, primary or mirror, is encoded with its true displacement."""
+    target = run + 2 + d
+    src = USER_MAP + "*=0x008000\nnop\n" + (f"@={run:#08x}\n" if how == "reloc" else f"*={run:#08x}\n") + f"{m} {target:#08x}\n"
+    wit = {"user_map": True, "m": m, "d": d, "how": how, "run": run, "src": src}
+    res.evals += 1
+    res.distinct_count += 1
+    r = assemble(src, rom=None)
+    ram = (run >> 16) in (0x70, 0x71, 0xF0, 0xF1)
+    if ram:
+        res.count("judged_ram_user_map")
+        if r.ok:
+            got = b"".join(x for _, x in r.blocks)
+            res.violate("ram-branch-accepted", f"user .map: `{m}` running at {run:#x} (a bank of the writable range or of its mirror) was encoded as {got[-2:].hex()}", wit)
+        else:
+            res.see("ram_reject_kinds", r.err_kind)
+        return
+    res.count("judged_rom_user_map")
+    got = b"".join(x for _, x in r.blocks) if r.ok else None
+    if -128 <= d <= 127:
+        want = bytes([isa.BRANCHES[m] if isinstance(isa.BRANCHES, dict) else 0, d & 0xFF])
+        if got is None:
+            res.violate("valid-branch-rejected", f"user .map: `{m}` at {run:#x} to {target:#x} (displacement {d}) rejected: {r.err_kind}: {r.err_text[:100]}", wit)
+        elif isinstance(isa.BRANCHES, dict) and got[-2:] != want:
+            res.violate("wrong-displacement", f"user .map: `{m}` at {run:#x} to {target:#x}: got {got[-2:].hex()} expected {want.hex()}", wit)
+        elif got[-1] != d & 0xFF:
+            res.violate("wrong-displacement", f"user .map: `{m}` at {run:#x} to {target:#x}: displacement byte {got[-1]:#x}, expected {d & 0xFF:#x}", wit)
+    elif got is not None:
+        res.violate("out-of-range-accepted", f"user .map: `{m}` at {run:#x} to {target:#x} needs displacement {d} but was encoded ({got[-2:].hex()})", wit)
+
+
 def run_shard(shard: dict) -> Res:
     res = Res()
     rom, m, form = shard["rom"], shard["m"], shard["form"]
+    if rom == "low" and form == FORMS[0]:
+        for run in (0x702000, 0x710010, 0xF02000, 0xF17F00, 0x018100, 0x818100, 0xBF9000):
+            for how in ("reloc", "org"):
+                for d in (-128, -127, -3, 0, 5, 126, 127, 128, -129):
+                    judge_user_map(res, m, d, how, run)
     # an earlier assembly of the same process declared its own mapping: the branches below are assembled by fresh Program objects
     # under the built-in mappings and owe it nothing
     assemble(MAP_HISTORY, rom=None)
@@ -325,5 +368,8 @@ def run_shard(shard: dict) -> Res:
 
 def replay(w: dict) -> Res:
     res = Res()
+    if w.get("user_map"):
+        judge_user_map(res, w["m"], w["d"], w["how"], w["run"])
+        return res
     judge(res, w["rom"], w["m"], w["d"], w["place"], w["form"], w["reloc"])
     return res
